@@ -14,6 +14,11 @@ ASSUME \A d \in 1..64 : \A n \in 1..d :
              \* exactness whenever n/d is a dyadic rational representable in 24 bits
              /\ ((d \in {1, 2, 4, 8, 16, 32, 64}) => f.m * d = n * 2 ^ (23 - f.e) \/ f.e > 0)
 \* fixed point: Fix is exact and additive on the dyadic grid
+\* interval form == set form: all pairs of sequences of <= 2 disjoint sorted intervals over 0..6
+IvSeqs == { S \in UNION { [1..n -> (0..6) \X (0..6)] : n \in 0..2 } : IvDisjointSorted(S) /\ \A i \in DOMAIN S : S[i][1] <= S[i][2] }
+ASSUME \A S \in IvSeqs, T \in IvSeqs : DistIv(S, T) = Dist(IvSet(S), IvSet(T)) /\ Dist32Iv(S, T) = Dist32(IvSet(S), IvSet(T))
+ASSUME Cardinality(IvSeqs) > 100
+
 ASSUME Fix(F32One) = FixOne /\ Fix(F32Zero) = <<0, 0>>
 ASSUME FixAdd(Fix(F32Div(1, 4)), Fix(F32Div(3, 4))) = FixOne
 ASSUME \A d \in 1..64 : \A n \in 1..d : FixLeq(Fix(F32Div(n, d)), FixOne) /\ (n < d => ~FixLeq(FixOne, Fix(F32Div(n, d))))
